@@ -249,7 +249,7 @@ def run(ctx):
         "rule": "scases: every string of length <= %s over a 7-symbol alphabet (exhaustive) + random longer strings + pools; lcases: "
                 "isLocalhost on a fixed pool of ~40 host spellings against a small reference; hcases: look-up sequences on one "
                 "PAC resolver / pool against fresh resolvers; pcases: every sequence of "
-                "<= %s tokens from a 21-token PAC vocabulary (exhaustive) + keyword x host:port pools + grammar-generated and "
+                "<= %s tokens from a 21-token PAC vocabulary (exhaustive) + sampled longer token sequences + keyword x host:port pools + grammar-generated and "
                 "mutated return strings; rcases: every single connect-to rule over small pools x 12 addresses (exhaustive) + "
                 "random rule lists (0..4); fcases: random configurations {none, static http/https/socks5, external function, "
                 "PAC script run by the real goja resolver} x direct-domains lists x localhost mode x targets, proxy function "
